@@ -358,6 +358,10 @@ func profileFor(prop string, r *sim.Rand, i int, quick bool) sim.Profile {
 			p.RestartPct = 6
 		}
 		p.EdgeAddresses = i%4 == 2
+		if (prop == "C07" || prop == "C09") && i%8 == 6 {
+			p.FatalEvPct = 25 // some evidence the application cannot handle (unknown key, too old, tombstoned, unstaked offender)
+			p.EvidencePct = 14
+		}
 		p.UnstakingTimeChanges = prop == "C06" && i%8 == 0
 		if p.UnstakingTimeChanges {
 			p.W["govparam"] = 14
